@@ -815,3 +815,211 @@ def _post_build(d):
 
 for _k in ("ufo2ft.outlineCompiler:OutlineTTFCompiler.setupTable_post", "ufo2ft.outlineCompiler:BaseOutlineCompiler.setupTable_post#OutlineCompilerT"):
     CONTRACTS[_k].runtime = Runtime(_post_cases, _post_build, call=lambda fn, a: fn(a["self"]))
+
+
+# =====================================================================================================
+# The cached property `fontBoundingBox` (what setupTable_head and the CFF builder read): computed once by
+# makeFontBoundingBox (contract above), then returned from the cache.
+cls("OutlineCompilerB", fields={"glyphBoundingBoxes": Dict(STR, Opt(lib.BBOX)), "_fontBoundingBox": Opt(lib.BBOX)},
+    repo="ufo2ft.outlineCompiler:BaseOutlineCompiler", notes="compiler as the fontBoundingBox property sees it (glyph boxes; cache slot)")
+
+
+def _union_clauses(box):
+    """clauses (one fact each): `box` is the union of the glyph boxes ((0,0,0,0) if there is none)"""
+    out = {}
+    for k, sd in enumerate(_SIDES):
+        out[f"encloses-{sd}"] = f"all(implies({_B}[g] is not None, {box}[{k}] {'<=' if k < 2 else '>='} {_B}[g].{sd}) for g in {_B})"
+        out[f"tight-{sd}"] = f"implies({_HASBOX}, any({_B}[g] is not None and {_B}[g].{sd} == {box}[{k}] for g in {_B}))"
+    out["empty"] = f"implies(not {_HASBOX}, {box} == (0, 0, 0, 0))"
+    return out
+
+
+def _is_union(box):
+    return "(" + " and ".join(_union_clauses(box).values()) + ")"
+
+
+contract(
+    "ufo2ft.outlineCompiler:BaseOutlineCompiler.makeFontBoundingBox",
+    name="OutlineCompilerB",  # the same function for the receiver class of the property contract (callee summary of `self.makeFontBoundingBox()`)
+    props=["C04"],
+    params={"self": Ref("OutlineCompilerB")},
+    returns=lib.BBOX,
+    ensures=_union_clauses("result"),
+    canaries={"always-empty": "result == (0, 0, 0, 0)"},
+    merge_branches=False,
+    ghost_vars={f"w{k}": (INT, "0") for k in range(4)},
+    ghost=dict(CONTRACTS["ufo2ft.outlineCompiler:BaseOutlineCompiler.makeFontBoundingBox"].ghost),
+    loops=dict(CONTRACTS["ufo2ft.outlineCompiler:BaseOutlineCompiler.makeFontBoundingBox"].loops),
+)
+
+contract(
+    "ufo2ft.outlineCompiler:BaseOutlineCompiler.fontBoundingBox",
+    props=["C04"],
+    params={"self": Ref("OutlineCompilerB")},
+    returns=Opt(lib.BBOX),
+    # the cache slot is written by this getter only (and set to None by __init__): a cached box is one it computed
+    requires=[f"len({_B}) >= 0", f"self._fontBoundingBox is None or {_is_union('self._fontBoundingBox')}"],
+    modifies=["self._fontBoundingBox"],
+    ensures={"a-box": "result is not None", **_union_clauses("result"), "cached": "self._fontBoundingBox == result"},
+    canaries={"always-empty": "result == (0, 0, 0, 0)"},
+    merge_branches=False,
+)
+
+
+def _fbbp_build(d):
+    comp = rtlib.outline_compiler(d, d["flavor"])
+    if d.get("cached"):
+        comp.fontBoundingBox  # noqa: B018  (fills the cache)
+    return {"self": comp}
+
+
+CONTRACTS["ufo2ft.outlineCompiler:BaseOutlineCompiler.fontBoundingBox"].runtime = Runtime(
+    lambda rng, n: [dict(d, cached=bool(k % 3 == 0)) for k, d in enumerate(_fbb_cases(rng, n))], _fbbp_build, call=lambda fn, a: fn.fget(a["self"]))
+CONTRACTS["ufo2ft.outlineCompiler:BaseOutlineCompiler.makeFontBoundingBox#OutlineCompilerB"].runtime = Runtime(_fbb_cases, _fbb_build, call=lambda fn, a: fn(a["self"]))
+
+
+# =====================================================================================================
+# head: the bounding-box fields are the font bounding box (already integers: otRound is the identity on them).
+# setupTable_head also formats versions and dates; the library models for that part (time.strptime, float(str), round(x, 3))
+# and the compiler vocabulary `OutlineCompilerH` are those of contracts/c16.py, whose `#c16` variant states the info-derived
+# fields of the same function.  (If c16 cannot be imported this variant is simply not registered.)
+try:
+    from . import c16 as _c16
+
+    _HD = "self.otf['head']"
+    contract(
+        "ufo2ft.outlineCompiler:BaseOutlineCompiler.setupTable_head",
+        name="c04",
+        props=["C04"],
+        params={"self": Ref("OutlineCompilerH")},
+        ensures={
+            **{f"bbox-{sd}": f"implies('head' in self.tables, {_HD}.{sd} == self.fontBoundingBox[{k}])" for k, sd in enumerate(_SIDES)},
+            "not-requested": "implies('head' not in self.tables, self.otf.get('head') == old(self.otf.get('head')))",
+        },
+        canaries={"empty-box": f"'head' in self.tables and {_HD}.xMin == 0 and {_HD}.xMax == 0"},
+        modifies=["TTFont.tbl:head"],
+        locals={"macStyle": List(INT)},
+        models={**_c16._DATE_MODELS, "builtins.float": _c16._float_c16, "builtins.round": _c16._round_c16},
+        calls={"ufo2ft.fontInfoData:intListToNum": "ufo2ft.fontInfoData:intListToNum#0+16"},
+        runtime=Runtime(lambda rng, n: [dict(d, flavor="otf" if k % 2 else "ttf") for k, d in enumerate(_fbb_cases(rng, n))], _fbb_build, call=lambda fn, a: fn(a["self"])),
+    )
+except Exception:  # noqa: BLE001
+    pass
+
+
+# =====================================================================================================
+# toInt — the rounding of CFF glyph boxes (nested in OutlineOTFCompiler.makeGlyphsBoundingBoxes; `tolerance` is the
+# enclosing function's local = self.roundTolerance).  A bound is ROUNDED (otRound) when every coordinate is rounded anyway
+# (tolerance >= 0.5) or when rounding moves it by at most the tolerance; otherwise it is pushed OUTWARD (floor for minima, ceil for
+# maxima), so the integer box never cuts into the outline by more than the tolerance.
+import math as _math  # noqa: E402
+
+
+class _PyFn(FuncRef):
+    """a python function value usable as a contract constant by both interpreters"""
+
+    def __init__(self, obj, qual):
+        FuncRef.__init__(self, obj, qual)
+
+    def __call__(self, *a, **k):
+        return self.obj(*a, **k)
+
+
+@trusted("math.floor", "math.floor(x): the largest integer <= x")
+def _floor(ex, st, args, kwargs, node):
+    (v,) = args
+    return Val(INT, z3.ToInt(lift(v, REAL)))
+
+
+@trusted("math.ceil", "math.ceil(x): the smallest integer >= x")
+def _ceil(ex, st, args, kwargs, node):
+    (v,) = args
+    return Val(INT, -z3.ToInt(-lift(v, REAL)))
+
+
+_TOL = Val(REAL, z3.Real("tolerance"))
+_CLOSE = "(tolerance >= 0.5 or abs(c04_otr(value) - value) <= tolerance)"
+for _nm, _fn, _out in (("floor", _math.floor, "result <= value and value < result + 1"), ("ceil", _math.ceil, "result >= value and value > result - 1")):
+    contract(
+        "ufo2ft.outlineCompiler:OutlineOTFCompiler.makeGlyphsBoundingBoxes.toInt",
+        name=_nm,
+        props=["C04"],
+        params={"value": REAL, "else_callback": Const(_PyFn(_fn, "math." + _nm))},
+        returns=INT,
+        globals={"tolerance": _TOL},
+        ensures={
+            "rounded-when-close": f"implies({_CLOSE}, result == c04_otr(value))",
+            "outward-otherwise": f"implies(not {_CLOSE}, {_out})",
+            # the integer bound never lies inside the outline by more than the tolerance (tolerance < 0.5: partial rounding)
+            "never-inside-by-more-than-tolerance": "implies(tolerance >= 0 and tolerance < 0.5, " + ("result <= value + tolerance" if _nm == "floor" else "result >= value - tolerance") + ")",
+        },
+        canaries={"always-rounds": "result == c04_otr(value)"},
+    )
+
+
+# =====================================================================================================
+# OutlineTTFCompiler.makeGlyphsBoundingBoxes: one entry per compiled glyph; the box is the glyf record's own (xMin, yMin, xMax, yMax)
+# after fontTools recomputed it, and None exactly for the all-zero box (glyph without outline).  Together with hmtx#c04 /
+# hhea / head this ties "side bearing == outline extremum" to the STORED glyph data of the TrueType flavour.
+def _recalcBounds(ex, st, self, args, kwargs, node):
+    """fontTools Glyph.recalcBounds(glyfTable): recomputes xMin/yMin/xMax/yMax of THIS glyph record from its own (and its
+    components') coordinates — the four fields get new values, nothing else changes (trusted library behaviour)"""
+    for f in ("xMin", "yMin", "xMax", "yMax"):
+        ex.write_field(st, self, f, Val(INT, fresh(INT, "recalc_" + f)), node)
+    return Val.const(None)
+
+
+_recalcBounds.modifies = ["TTGlyphRec.xMin", "TTGlyphRec.yMin", "TTGlyphRec.xMax", "TTGlyphRec.yMax"]
+cls("TTGlyphRec", fields={"xMin": INT, "yMin": INT, "xMax": INT, "yMax": INT}, methods={"recalcBounds": _recalcBounds}, notes="fontTools glyf Glyph record (bounds only)")
+
+
+def _getCompiledGlyphs(ex, st, self, args, kwargs, node):
+    return ex.read_field(st, self, "compiled")
+
+
+cls("OutlineCompilerG", fields={"compiled": Dict(STR, Ref("TTGlyphRec"))}, methods={"getCompiledGlyphs": _getCompiledGlyphs},
+    views={"compiled": lambda o: o.getCompiledGlyphs()},
+    repo="ufo2ft.outlineCompiler:OutlineTTFCompiler",
+    notes="TTF compiler as makeGlyphsBoundingBoxes sees it; `compiled` = what getCompiledGlyphs() returns (the cached result of compileGlyphs, "
+          "whose content is C02's subject) — the two-line cache wrapper getCompiledGlyphs is summarised as a read of that field")
+
+
+def _bbox_ctor(ex, st, args, kwargs, node):
+    """namedtuple constructor BoundingBox(xMin, yMin, xMax, yMax): the 4-tuple of its arguments"""
+    return Val(lib.BBOX, lib.BBOX.sort().mk(*[lift(a, INT) for a in args]))
+
+
+_CG = "self.compiled"
+contract(
+    "ufo2ft.outlineCompiler:OutlineTTFCompiler.makeGlyphsBoundingBoxes",
+    props=["C04"],
+    params={"self": Ref("OutlineCompilerG")},
+    returns=Dict(STR, Opt(lib.BBOX)),
+    models={"ufo2ft.outlineCompiler.BoundingBox": _bbox_ctor},
+    requires=[
+        f"len({_CG}) >= 0", f"all(allocated({_CG}[g]) for g in {_CG})",
+        # compileGlyphs builds one NEW record per glyph name (`pen.glyph(..)` / `Glyph()` inside its loop): no record is shared by two names
+        f"all(all(implies(a != b, {_CG}[list({_CG})[a]] is not {_CG}[list({_CG})[b]]) for b in range(len({_CG}))) for a in range(len({_CG})))",
+    ],
+    # recalcBounds rewrites the four bound fields of the glyf records (library behaviour); ufo2ft itself writes nothing that existed
+    modifies=list(_recalcBounds.modifies),
+    ensures={
+        "one-entry-per-glyph": f"all(g in result for g in {_CG}) and all(g in {_CG} for g in result)",
+        "none-iff-all-zero": f"all(iff(result[g] is None, {_CG}[g].xMin == 0 and {_CG}[g].yMin == 0 and {_CG}[g].xMax == 0 and {_CG}[g].yMax == 0) for g in {_CG})",
+        **{f"box-{sd}": f"all(implies(result[g] is not None, result[g].{sd} == {_CG}[g].{sd}) for g in {_CG})" for sd in _SIDES},
+    },
+    canaries={"all-empty": f"all(result[g] is None for g in {_CG})"},
+    locals={"glyphBoxes": Dict(STR, Opt(lib.BBOX))},
+    loops={
+        "for (glyphName, glyph) in ttGlyphs.items()": Loop(
+            index="i", seq="K",
+            invariants={
+                "keys": "all(K[a] in glyphBoxes for a in range(i))",
+                "none-iff-all-zero": f"all(iff(glyphBoxes[K[a]] is None, {_CG}[K[a]].xMin == 0 and {_CG}[K[a]].yMin == 0 and {_CG}[K[a]].xMax == 0 and {_CG}[K[a]].yMax == 0) for a in range(i))",
+                **{f"box-{sd}": f"all(implies(glyphBoxes[K[a]] is not None, glyphBoxes[K[a]].{sd} == {_CG}[K[a]].{sd}) for a in range(i))" for sd in _SIDES},
+                "only": f"all(g in {_CG} for g in glyphBoxes)",
+            },
+        )
+    },
+    runtime=Runtime(_fbb_cases, lambda d: {"self": rtlib.outline_compiler(d, "ttf")}, call=lambda fn, a: fn(a["self"])),
+)
